@@ -180,7 +180,7 @@ func callCycles(E *guards.Engine, scope []*ssa.Function) []string {
 // c09NoInputWrite is the hook for C09-R3 (no store / copy destination / in-place append through the input
 // parameter of a decoder root). The rule is built on the effects engine (E4).
 func c09NoInputWrite(c *Ctx) {
-	c.Run.Note("C09-R3 NO-INPUT-WRITE: provided by effects engine after merge")
+	ruleNoInputWrite(c, "R3.no-input-write", nil)
 }
 
 // dumpGuards: lwstatic dump guards [func-substring [all]]  — prints obligations and facts for debugging.
